@@ -36,10 +36,13 @@ inductive Site where
   | endpoint
   | status (code : Nat)
   | exch (i : Nat)         -- i-th registered exception handler
-  | after (j : Nat)
 deriving DecidableEq, Repr
 
 abbrev Prog := Site → Beh
+
+/-- behaviour of the j-th after-response hook (kept apart from `Prog`: nothing that
+    happens before the after-hook loop can consult it) -/
+abbrev AfterProg := Nat → Beh
 
 /-- trace of what ran, in order (self-recorded by the harness on the implementation) -/
 inductive Ev where
@@ -205,17 +208,21 @@ def dispatch (app : App) (p : Prog) (route : Route) (t : Trace) : R Val :=
     | .notFound => R.err t1 (.http 404 false false)
     | r => R.ok (t1 ++ [.builtinDispatch r]) (builtinVal r)
 
+/-- like `callT` for the j-th after hook -/
+def callA (post : AfterProg) (j : Nat) : Trace → Trace × Except Exc Val := fun t =>
+  (t ++ [.after j], match post j with | .ret v => .ok v | .raise x => .error x | .same => .ok .none)
+
 /-- after hooks `j..`: each receives the previous result; a failure ends the loop with an error response -/
-def runAfter (app : App) (p : Prog) : Nat → Nat → Trace → Resp → Trace × Resp
+def runAfter (app : App) (p : Prog) (post : AfterProg) : Nat → Nat → Trace → Resp → Trace × Resp
   | _, 0, t, r => (t, r)
   | j, k + 1, t, r =>
-    match p (.after j) with
-    | .same => runAfter app p (j + 1) k (t ++ [.after j]) r
+    match post j with
+    | .same => runAfter app p post (j + 1) k (t ++ [.after j]) r
     | _ =>
-    match callT p (.after j) (.after j) t with
+    match callA post j t with
     | (t1, .ok v) =>
       match coerce app t1 v with
-      | (t2, .ok r') => runAfter app p (j + 1) k t2 r'
+      | (t2, .ok r') => runAfter app p post (j + 1) k t2 r'
       | (t2, .error e) => errorResponse app p e t2
     | (t1, .error e) => errorResponse app p e t1
 
@@ -249,22 +256,27 @@ def ladder (app : App) (p : Prog) (t : Trace) (e : Exc) : Trace × Option Resp :
   | .respErr => let x := guarded (fallback500 app p t); (x.1, some x.2)
   | e => let x := errorResponse app p e t; (x.1, some x.2)
 
-def afterAll (app : App) (p : Prog) (t : Trace) (r : Resp) : Trace × Option Resp :=
-  let x := runAfter app p 0 app.nAfter t r
+def afterAll (app : App) (p : Prog) (post : AfterProg) (t : Trace) (r : Resp) : Trace × Option Resp :=
+  let x := runAfter app p post 0 app.nAfter t r
   (x.1, some x.2)
 
-/-- the response object that reaches the emission step, or `none` for the silent return -/
-def respond (app : App) (p : Prog) (ctor : Option Exc) (route : Route) : Trace × Option Resp :=
+/-- everything up to (not including) the after-hook loop: the response the loop starts
+    with, or `none` for the silent return.  Takes no `AfterProg`. -/
+def preAfter (app : App) (p : Prog) (ctor : Option Exc) (route : Route) : Trace × Option Resp :=
   match phase1 app p ctor route with
-  | (t, .ok r) => afterAll app p t r
-  | (t, .error e) =>
-    match ladder app p t e with
-    | (t1, none) => (t1, none)
-    | (t1, some r) => afterAll app p t1 r
+  | (t, .ok r) => (t, some r)
+  | (t, .error e) => ladder app p t e
+
+/-- the response object that reaches the emission step, or `none` for the silent return -/
+def respond (app : App) (p : Prog) (post : AfterProg) (ctor : Option Exc) (route : Route) :
+    Trace × Option Resp :=
+  match preAfter app p ctor route with
+  | (t, none) => (t, none)
+  | (t, some r) => afterAll app p post t r
 
 /-- the whole request: trace of user/built-in code that ran, and what the server sees -/
-def run (app : App) (p : Prog) (ctor : Option Exc) (route : Route) : Trace × Outcome :=
-  match respond app p ctor route with
+def run (app : App) (p : Prog) (post : AfterProg) (ctor : Option Exc) (route : Route) : Trace × Outcome :=
+  match respond app p post ctor route with
   | (t, none) => (t, .silent)
   | (t, some r) =>
     match emit app.reasons r with
